@@ -234,6 +234,17 @@ def one_case(ctx, k):
             variant("input=stdin", base + ["-o", "si1.fastq", "-"], [("si1.fastq", 1)], stdin_path=os.path.join(d, "in1.fastq"))
             variant("input=stdin cores=2", base + ["-j", "2", "--buffer-size", "2000", "-o", "si2.fastq", "-"], [("si2.fastq", 1)],
                     stdin_path=os.path.join(d, "in1.fastq"))
+            # compressed data on standard input
+            for kind in rng.sample([k_ for k_ in CONTAINERS if k_ != "plain"], 2):
+                try:
+                    zi = write_container(d, f"zin_{kind}.fastq", fq1, kind)
+                except Exception:
+                    ctx.count("codec_unavailable:" + kind)
+                    continue
+                cores = rng.choice([1, 2])
+                variant(f"input=stdin-{kind} cores={cores}", base + (["-j", "2"] if cores == 2 else []) + ["-o", f"sz_{kind}.fastq", "-"],
+                        [(f"sz_{kind}.fastq", 1)], stdin_path=("pipe:" if rng.random() < 0.7 else "") + os.path.join(d, zi))
+            variant("input=stdin-pipe", base + ["-o", "sp1.fastq", "-"], [("sp1.fastq", 1)], stdin_path="pipe:" + os.path.join(d, "in1.fastq"))
         else:
             # paired data on standard output is interleaved; --fasta applies to it as well
             variant("stdout interleaved", base + ["--interleaved"] + ins, [("-", "interleaved")])
